@@ -82,6 +82,11 @@ static int cmd_read(const char *inp, const char *tests, const char *outp) {
     n = V[idx].n; copy = malloc(n + 1); memcpy(copy, V[idx].data, n);
     if (!strcmp(op, "cut")) { if ((size_t)a < n) n = (size_t)a; }
     else if (!strcmp(op, "flip")) { if ((size_t)a < n) copy[a] ^= (unsigned char)b; }
+    else if (!strcmp(op, "utype")) {
+      /* the type byte of the physical record whose header starts at a becomes b, and the checksum is made valid again: an
+         unknown record type with a correct CRC */
+      if ((size_t)a + 7 <= n) { size_t L = copy[a + 4] | ((size_t)copy[a + 5] << 8); if ((size_t)a + 7 + L <= n) { uint32_t crc; copy[a + 6] = (unsigned char)b; crc = ldb_crc32c_mask(ldb_crc32c_value(copy + a + 6, 1 + L)); copy[a] = crc & 255; copy[a + 1] = (crc >> 8) & 255; copy[a + 2] = (crc >> 16) & 255; copy[a + 3] = (crc >> 24) & 255; } }
+    }
     else if (!strcmp(op, "zero")) { if ((size_t)a < n) memset(copy + a, 0, (size_t)a + (size_t)b <= n ? (size_t)b : n - (size_t)a); }   /* a zero-filled region (e.g. a lost block) */
     g_drops = 0; g_dropbytes = 0;
     memset(&rep, 0, sizeof(rep)); rep.corruption = on_corruption;
